@@ -34,7 +34,9 @@ CHECKS = {
         "C08_declarations_keep_table_reciprocal / C08_latest_declaration_in_force / C08_other_declaration_keeps (Model/Declare.v, Proofs/EquateFacts.v): after any history of declarations and "
         "re-declarations both directions of every pair carry the figure of its latest declaration; C08_refuted_reverse_ratio_kept; tied per run by Gen_eqshape (equate's assignments read off the source).",
    note=TB + "Assumes the planner has no hidden state besides _ratios/_offsets and the two lru caches (validated by the "
-        "fresh-process differential). Axioms: none.",
+        "fresh-process differential). C08_lookups_register_nothing_visible / C08_lookups_keep_plans (Proofs/TableRows.v: empty rows that defaultdict lookups register are invisible to every "
+        "function of the planner model; per run Gen_rows checks that the package reads the tables only through rows). Axioms: functional_extensionality_dep (standard library) for those two "
+        "theorems only; every other C08 theorem is closed under the global context.",
    tech="Rocq proof: cache-coherence invariant by induction over histories (parametric in the planner)", ref="DESIGN.md §4 C08"),
  "C15": dict(
    text="Theorems C15_reenter_by_key / C15_intern_keeps_keys_unique (any table interned by a decidable key: handing a stored key back returns the same entry and changes "
